@@ -277,7 +277,10 @@ def hsetSys (hk : Nat) (f : HFmt) : Sys HSetS where
       | some s => .ok s
       | none => .error "not the layout of any hash-set state (broken chain or free list, or a slot that is neither live, recycled nor never used)"
   encode := fun s => if s.slots ≤ 64 then some (f.toBytes (s.image 0)) else none
-  step := hsetStep hk
+  step := fun s op args =>
+    match op, args with
+    | "dlen", [n] => some (s, toString (f.dataLen n.toNat))
+    | _, _ => hsetStep hk s op args
   trace := fun _ _ _ => none
   absEq := fun a b =>
     a.members.mergeSort == b.members.mergeSort && a.size == b.size && a.cap == b.cap
